@@ -12,16 +12,19 @@ echo "clean=$clean patched=$patched tests: $tests"
 if [ $clean -eq 0 ] && [ $patched -ne 0 ] && echo "$tests" | grep -q "86 passed"; then
   mkdir -p $DST && cp -r $SRC/* $DST/
   # run my check against the change
-  git -C /repo apply $SRC/patch.diff
-  out=$(cd /verif && VERIF_EVIDENCE_DIR=$(mktemp -d /dev/shm/seed_ev.XXXX) ./check $PID 2>&1); code=$?
-  git -C /repo checkout -- .
+  # the check reads the tree named by VERIF_REPO: the sub-agent's worktree with the patch applied (equivalent to
+  # git -C /repo apply; run; git -C /repo checkout -- . but leaves /repo alone while other checks are being developed)
+  git -C $WT apply $SRC/patch.diff
+  out=$(cd /verif && VERIF_REPO=$WT VERIF_EVIDENCE_DIR=$(mktemp -d /dev/shm/seed_ev.XXXX) ./check $PID 2>&1); code=$?
+  git -C $WT checkout -q -- .
+  echo "$out" | tail -5
   caught=$(echo "$out" | grep -E "^VIOLATION" | sed -E 's/.*obligation=([^ ]+).*/\1/' | head -5 | tr '\n' ' ')
   python3 - "$DST/meta.json" "$code" "$caught" "$tests" <<'PY'
 import json,sys
 p,code,caught,tests=sys.argv[1:5]
 m=json.load(open(p))
 m['confirmed']={'demo_exit_clean_tree':0,'demo_fails_with_patch':True,'pytest_with_patch':tests.strip(),
-  'ran':'tools/keep_seed.sh: git apply; run.sh (fails); git checkout; run.sh (passes); pytest baseline; ./check <pid> with the patch applied to /repo, then git checkout'}
+  'ran':'tools/keep_seed.sh: git apply; run.sh (fails); git checkout; run.sh (passes); pytest baseline; VERIF_REPO=<worktree with the patch applied> ./check <pid>, then git checkout'}
 m['check_exit_code_with_patch']=int(code); m['obligations_reporting_it']=caught.split()
 json.dump(m,open(p,'w'),indent=1)
 PY
